@@ -5,7 +5,7 @@ import re._parser as sre_parse
 import re._constants as sre_c
 
 from ..model import AnalysisError, Model, walk_no_nested, norm_stmt, names_in
-from .. import flow
+from .. import flow, sem
 
 EXPLANATION = (
     'Decided on asn1tools/parser.py: (R1) the comment pre-pass whose result is handed to grammar.parseString scans for the character-string '
@@ -129,33 +129,78 @@ def check(ctx):
             raise AnalysisError('cannot find the comment pre-pass of parse_string')
     else:
         fq = Model.qual(pre)
+        pv = sem.View(pre)
+
+        def regex_of(call, f_):
+            """The pattern string a regex call works with: re.fn('pat', ...), NAME.fn(...) / local.fn(...) where the name is
+            bound to re.compile('pat') at module level or in f_.  -> (pattern, function name) or None"""
+            if not (isinstance(call, ast.Call) and isinstance(call.func, ast.Attribute)):
+                return None
+            fn = call.func.attr
+            if fn not in ('finditer', 'split', 'findall', 'search', 'match', 'sub', 'subn', 'fullmatch', 'compile'):
+                return None
+            recv = call.func.value
+            if isinstance(recv, ast.Name) and recv.id == 're':
+                if call.args and isinstance(call.args[0], ast.Constant) and isinstance(call.args[0].value, str):
+                    return call.args[0].value, fn
+                if call.args and isinstance(call.args[0], ast.Name):
+                    r_ = m.resolve_name(call.args[0].id)
+                    if isinstance(r_, tuple) and r_[0] == 'const' and isinstance(r_[1], ast.Constant) and isinstance(r_[1].value, str):
+                        return r_[1].value, fn
+                return None
+            comp = None
+            if isinstance(recv, ast.Name):
+                v_ = sem.View(f_)
+                if recv.id in v_.alias:
+                    comp = v_.alias[recv.id]
+                else:
+                    r_ = m.resolve_name(recv.id)
+                    if isinstance(r_, tuple) and r_[0] == 'const':
+                        comp = r_[1]
+            elif isinstance(recv, ast.Call):
+                comp = recv
+            if isinstance(comp, ast.Call) and ast.unparse(comp.func) == 're.compile' and comp.args and isinstance(comp.args[0], ast.Constant):
+                return comp.args[0].value, fn
+            return None
         # ---- R1
-        pats = [c for c in walk_no_nested(pre) if isinstance(c, ast.Call) and ast.unparse(c.func) in ('re.finditer', 're.compile', 're.split', 're.findall', 're.search', 're.match')
-                and c.args and isinstance(c.args[0], ast.Constant) and isinstance(c.args[0].value, str)]
-        if not pats:
-            raise AnalysisError('%s: scanner regex not found' % fq)
-        alts = []
-        for c in pats:
-            alts.extend(regex_alternatives(c.args[0].value))
-        lits = [a for a in alts if a]
-        has_comment_tokens = '--' in lits and '/*' in lits
-        if not has_comment_tokens:
-            raise AnalysisError('%s: scanner regex %r does not look like the comment scanner' % (fq, pats[0].args[0].value))
-        ok = any('"' in a for a in lits)
-        ctx.instance('C14.R1', '%s scanner alternatives %s' % (fq, sorted(set(lits))), 'ok' if ok else 'VIOLATION', node=pats[0], file=F)
+        pats = []
+        for c in walk_no_nested(pre):
+            r_ = regex_of(c, pre)
+            if r_ is not None and r_[1] in ('finditer', 'split', 'findall', 'search', 'match', 'compile'):
+                pats.append((c, r_[0]))
+        scanners = []
+        for c, pat in pats:
+            lits_ = [a_ for a_ in regex_alternatives(pat) if a_]
+            if '--' in lits_ and '/*' in lits_:
+                scanners.append((c, pat, lits_))
+        if not scanners:
+            raise AnalysisError('%s: the regex that scans for the comment markers was not found' % fq)
+        lits = [a_ for _c, _p, ls in scanners for a_ in ls]
+        ok = any('"' in a_ for a_ in lits)
+        ctx.instance('C14.R1', '%s scanner alternatives %s' % (fq, sorted(set(lits))), 'ok' if ok else 'VIOLATION', node=scanners[0][0], file=F)
         if not ok:
-            ctx.violation('C14.R1', F, pats[0], fq,
+            ctx.violation('C14.R1', F, scanners[0][0], fq,
                           'the comment scanner looks for %s but never for the string delimiter `"`: text inside a character-string literal such as "a--b" '
                           'is treated as a comment and blanked (the literal is corrupted or the module rejected)' % sorted(set(lits)), stmt='scanner ignores string literals')
-        # ---- R2 / R4: classify every chunks.append(X)
-        appends = [c for c in walk_no_nested(pre) if isinstance(c, ast.Call) and isinstance(c.func, ast.Attribute) and c.func.attr == 'append' and c.args]
+        # ---- R2 / R4: classify every <chunks>.append(X)   (also through a bound-method alias)
+        appends = [c for c in sem.method_calls(pre, 'append', pv) if c.args]
+        verbatim_uppers = set()
+        for c in appends:
+            x = c.args[0]
+            if isinstance(x, ast.Subscript) and isinstance(x.slice, ast.Slice) and x.slice.upper is not None:
+                verbatim_uppers.add(ast.unparse(x.slice.upper))
         n_repl = 0
+        n_cursor = 0
         for c in appends:
             x = c.args[0]
             src = ast.unparse(x)
-            guards = ' && '.join(ast.unparse(t) for t, pol in flow.guards_of(c, pre))
-            multi = 'multi_line' in guards or 'depth' in guards
-            single = 'single_line' in guards
+            # which marker closes the region replaced here?  (the string constants of the enclosing tests)
+            consts = set()
+            for t_, pol_ in flow.guards_of(c, pre):
+                if pol_:
+                    consts |= {k_.value for k_ in ast.walk(t_) if isinstance(k_, ast.Constant) and isinstance(k_.value, str)}
+            multi = '*/' in consts
+            single = ('\n' in consts or '--' in consts) and not multi
             if isinstance(x, ast.Subscript):
                 ctx.instance('C14.R4', '%s verbatim chunk %s' % (fq, src), 'ok', nontrivial=False, node=c, file=F)
                 continue
@@ -163,9 +208,15 @@ def check(ctx):
                 continue      # (offset, kind) records of the scanner
             n_repl += 1
             cons = '%s replacement `%s` [%s]' % (fq, src, 'multi-line comment' if multi else 'single-line comment' if single else 'other')
+            # the verbatim cursor is moved to the end of the replaced region right here
+            sibs = getattr(Model.enclosing_stmt(c), '_parent', None)
+            if any(isinstance(s_, ast.Assign) and isinstance(s_.targets[0], ast.Name) and any(s_.targets[0].id in names_in(sl_) for sl_ in
+                   [y.slice.lower for y in [a_.args[0] for a_ in appends] if isinstance(y, ast.Subscript) and isinstance(y.slice, ast.Slice) and y.slice.lower is not None])
+                   for s_ in ast.walk(sibs) if isinstance(s_, ast.Assign)):
+                n_cursor += 1
             if isinstance(x, ast.BinOp) and isinstance(x.op, ast.Mult) and any(isinstance(s_, ast.Constant) and s_.value == ' ' for s_ in (x.left, x.right)):
                 # pure blank fill
-                if multi:
+                if multi or not single:
                     ctx.instance('C14.R2', cons, 'VIOLATION', node=c, file=F)
                     ctx.violation('C14.R2', F, c, fq,
                                   'a /* */ comment is replaced by a run of blanks of the same length: the new-lines inside it disappear, so every later item moves up '
@@ -173,9 +224,10 @@ def check(ctx):
                                   stmt='multi-line comment replaced by blank fill')
                 else:
                     ctx.instance('C14.R2', cons, 'ok', 'a single-line comment contains no new-line', node=c, file=F)
-                    # R4: multiplier == end - start of the blanked region
+                    # R4: multiplier == end - start of the blanked region; the start is where the verbatim text before the comment ended
                     mult = x.right if isinstance(x.left, ast.Constant) else x.left
-                    ok = isinstance(mult, ast.BinOp) and isinstance(mult.op, ast.Sub) and ast.unparse(mult.right) == 'start_offset'
+                    ok = isinstance(mult, ast.BinOp) and isinstance(mult.op, ast.Sub) and ast.unparse(mult.right) in verbatim_uppers \
+                        and isinstance(mult.left, ast.Name)
                     ctx.instance('C14.R4', '%s blank fill length %s' % (fq, ast.unparse(mult)), 'ok' if ok else 'VIOLATION', node=c, file=F)
                     if not ok:
                         ctx.violation('C14.R4', F, c, fq, 'the blank fill of a comment is not as long as the comment (%s): columns/offsets of later items shift' % ast.unparse(mult), stmt='blank fill length')
@@ -183,16 +235,19 @@ def check(ctx):
             # a computed replacement: find the regex that decides what is kept
             pattern = None
             call = x if isinstance(x, ast.Call) else None
-            if call is not None and ast.unparse(call.func) == 're.sub':
-                pattern = call.args[0].value if isinstance(call.args[0], ast.Constant) else None
-            elif call is not None and isinstance(call.func, ast.Name) and call.func.id in m.functions:
-                g = m.functions[call.func.id]
-                for cc in walk_no_nested(g):
-                    if isinstance(cc, ast.Call) and ast.unparse(cc.func) == 're.sub' and isinstance(cc.args[0], ast.Constant):
-                        pattern = cc.args[0].value
+            if call is not None:
+                r_ = regex_of(call, pre)
+                if r_ is not None and r_[1] in ('sub', 'subn'):
+                    pattern = r_[0]
+                elif isinstance(call.func, ast.Name) and call.func.id in m.functions:
+                    g = m.functions[call.func.id]
+                    for cc in walk_no_nested(g):
+                        r2 = regex_of(cc, g)
+                        if r2 is not None and r2[1] in ('sub', 'subn'):
+                            pattern = r2[0]
             if pattern is None:
-                ctx.instance('C14.R2', cons, 'VIOLATION', node=c, file=F)
-                ctx.violation('C14.R2', F, c, fq, 'cannot establish what the replacement `%s` keeps of the comment text' % src, stmt='unknown replacement')
+                ctx.instance('C14.R2', cons, 'undecided', 'cannot establish what the replacement keeps of the comment text', nontrivial=False, node=c, file=F)
+                ctx.note('C14.R2 undecided: replacement `%s`' % src)
                 continue
             kind, kept = kept_by_sub(pattern)
             ok = kind == 'only' and set(kept) <= PYPARSING_WS
@@ -204,33 +259,53 @@ def check(ctx):
                               stmt='replacement keeps non-skippable characters')
         if n_repl < 2:
             raise AnalysisError('%s: comment replacement sites not found' % fq)
-        # tiling: after each replacement the verbatim cursor is set to the end of the region
-        src = ast.unparse(pre)
-        ok = src.count('non_comment_offset = offset') >= 2 and 'chunks.append(string[non_comment_offset:])' in src and "''.join(chunks)" in src
-        ctx.instance('C14.R4', '%s verbatim cursor follows every replaced region; result is the concatenation' % fq, 'ok' if ok else 'VIOLATION', node=pre, file=F)
+        # tiling: after each replacement the verbatim cursor is set to the end of the region; the tail is appended; the result is the join
+        tail = any(isinstance(a_.args[0], ast.Subscript) and isinstance(a_.args[0].slice, ast.Slice) and a_.args[0].slice.upper is None and a_.args[0].slice.lower is not None
+                   and not any(isinstance(p_, (ast.For, ast.While)) for p_ in flow.ancestors(a_)) for a_ in appends)
+        joined = any(isinstance(r_, ast.Return) and r_.value is not None and isinstance(pv.expr(r_.value), ast.Call) and sem.callee_name(pv.expr(r_.value)) == 'join'
+                     for r_ in walk_no_nested(pre))
+        ok = n_cursor >= n_repl and tail and joined
+        ctx.instance('C14.R4', '%s verbatim cursor follows every replaced region (%d of %d); tail appended; result is the concatenation' % (fq, n_cursor, n_repl), 'ok' if ok else 'VIOLATION', node=pre, file=F)
         if not ok:
             ctx.violation('C14.R4', F, pre, fq, 'the verbatim chunks no longer tile the input around the blanked regions', stmt='tiling')
 
     # ---- R3
     cg = model.func(F, 'create_grammar')
     n3 = 0
-    for c in walk_no_nested(cg):
-        if isinstance(c, ast.Call) and isinstance(c.func, ast.Name) and c.func.id in ('Keyword', 'Literal', 'CaselessKeyword', 'CaselessLiteral') \
-                and c.args and isinstance(c.args[0], ast.Constant) and isinstance(c.args[0].value, str):
+    CTORS = ('Keyword', 'Literal', 'CaselessKeyword', 'CaselessLiteral')
+    # helpers (nested in create_grammar or at module level) that build a Keyword/Literal from their parameter
+    wrappers = {}
+    cands = [n for n in ast.walk(cg) if isinstance(n, ast.FunctionDef) and n is not cg] + list(m.functions.values())
+    for g in cands:
+        gp = flow.param_names(g)
+        for c in ast.walk(g):
+            if isinstance(c, ast.Call) and isinstance(c.func, ast.Name) and c.func.id in CTORS and c.args and isinstance(c.args[0], ast.Name) and c.args[0].id in gp:
+                wrappers[g.name] = (c.func.id, gp.index(c.args[0].id))
+    for c in ast.walk(cg):
+        if not (isinstance(c, ast.Call) and isinstance(c.func, ast.Name) and c.args):
+            continue
+        if c.func.id in CTORS:
+            ctor, arg = c.func.id, c.args[0]
+        elif c.func.id in wrappers and len(c.args) > wrappers[c.func.id][1]:
+            ctor, arg = wrappers[c.func.id][0], c.args[wrappers[c.func.id][1]]
+        else:
+            continue
+        if isinstance(arg, ast.Constant) and isinstance(arg.value, str):
             n3 += 1
-            v = c.args[0].value
+            v = arg.value
             bad = re.search(r'\S\s+\S', v) is not None
-            ctx.instance('C14.R3', "%s(%r)" % (c.func.id, v), 'single lexical item' if not bad else 'VIOLATION', nontrivial=bad or ' ' in v, node=c, file=F)
+            ctx.instance('C14.R3', "%s(%r)" % (ctor, v), 'single lexical item' if not bad else 'VIOLATION', nontrivial=bad or ' ' in v, node=c, file=F)
             if bad:
-                ctx.violation('C14.R3', F, c, "%s::create_grammar::%s(%r)" % (F, c.func.id, v),
+                ctx.violation('C14.R3', F, c, "%s::create_grammar::%s(%r)" % (F, ctor, v),
                               'the keyword %r is matched as one literal with exactly one blank: X.680 allows any white-space, new-lines and comments between its words '
-                              '(e.g. "%s" is rejected)' % (v, v.replace(' ', '\\n', 1)), stmt='%s(%r)' % (c.func.id, v))
+                              '(e.g. "%s" is rejected)' % (v, v.replace(' ', '\\n', 1)), stmt='%s(%r)' % (ctor, v))
     if n3 < 60:
         raise AnalysisError('C14.R3 saw only %d Keyword/Literal calls in create_grammar' % n3)
 
     # ---- R5
     hs = [h for n in walk_no_nested(ps) if isinstance(n, ast.Try) for h in n.handlers]
-    ok = bool(hs) and any('e.lineno' in ast.unparse(h) and 'ParseError' in ast.unparse(h) for h in hs)
+    ok = bool(hs) and any(h.name and any(isinstance(n_, ast.Attribute) and n_.attr == 'lineno' and isinstance(n_.value, ast.Name) and n_.value.id == h.name for n_ in ast.walk(h))
+                          and 'ParseError' in ast.unparse(h) for h in hs)
     ctx.instance('C14.R5', 'parse_string reports e.lineno of the exception', 'ok' if ok else 'VIOLATION', node=ps, file=F)
     if not ok:
         ctx.violation('C14.R5', F, ps, Model.qual(ps), 'the reported line is no longer the line of the parse exception', stmt='e.lineno')
